@@ -219,9 +219,9 @@ def pool_validator(ctx, batches):
             "sample": {"watched_runs": runs, "watched_steps": steps}}
 
 
-def pool_proof(prop, theorems, note):
+def pool_proof(prop, theorems, note, extra_gen=()):
     return {
-        "prop_file": f"Props/{prop}.v", "gen": ["Ledger", "Pool"], "theorems": theorems, "validator": pool_validator,
+        "prop_file": f"Props/{prop}.v", "gen": ["Ledger", "Pool"] + list(extra_gen), "theorems": theorems, "validator": pool_validator,
         "model_name": "coq/Model/Pool.v",
         "checker_extra": "the proved statements that are observable (broken future => flag; manager gone => nothing unresolved) "
                          "are evaluated on the real executor objects after every scheduling step of every simulated run",
